@@ -120,8 +120,46 @@ pub fn run(ctx: &Ctx) -> CheckResult {
         res.absorb(merge_jobs(outs));
     }
 
+    // very long recursions: incremental double-double reference, all orderings of two regime segments
+    if !res.out.failed() {
+        use crate::regimes::{orderings, Regime};
+        let ords = orderings(&[Regime::Walk, Regime::Saw, Regime::Extremes, Regime::Stair, Regime::Spikes], 2);
+        let seglen = if th { 500_000 } else { 25_000 };
+        let mut jobs: Vec<(Cfg, Vec<Regime>, f64, bool)> = vec![];
+        for &n in &[1usize, 2, 9, 14, 200] {
+            for (oi, ord) in ords.iter().enumerate() {
+                for &m in &[0.7, 1.1e6] {
+                    if !th && (oi + n) % 3 != 0 {
+                        continue;
+                    }
+                    jobs.push((Cfg::p1(Kind::Ema, n), ord.clone(), m, false));
+                    jobs.push((Cfg::p1(Kind::Atr, n), ord.clone(), m, true));
+                    jobs.push((Cfg::p1(Kind::Atr, n), ord.clone(), m, false));
+                    jobs.push((Cfg::p3(Kind::Macd, n, 2 * n + 1, 9), ord.clone(), m, false));
+                    jobs.push((Cfg::pm(Kind::Kc, n, 2.0), ord.clone(), m, true));
+                    jobs.push((Cfg::pm(Kind::Kc, n, 2.0), ord.clone(), m, false));
+                    jobs.push((Cfg::pm(Kind::Ce, n, 3.0), ord.clone(), m, true));
+                    if n == 1 {
+                        jobs.push((Cfg::p0(Kind::Tr), ord.clone(), m, true));
+                    }
+                }
+            }
+        }
+        res.extra.insert("very_long_runs".into(), json!(jobs.len()));
+        let outs = par_run(ctx, &jobs, |_, (cfg, ord, m, bars)| {
+            let mut out = JobOut::default();
+            let e = if ctx.out_of_time() { out.stats.capped.push("time cap in very long runs".into()); Ok(()) } else { long_run_incref(PROP, cfg, ord, seglen, *m, *bars, ctx.seed, 97, &mut out) };
+            (out, e.err())
+        });
+        for (o, e) in outs {
+            if let Some(e) = e {
+                res.machinery_errors.push(e);
+            }
+            res.absorb(o);
+        }
+    }
     res.rule = "case = (configuration, operation history) replayed on a fresh real instance; output of the last op compared with the documented recursion/formula evaluated from scratch over the whole history since reset in double-double; non-trivial = history of at least 2 inputs since reset".into();
-    res.bounds = format!("seq(S_int+{{7.7,1e6}}+reset, {d}) scalar paths and seq(B_grid+reset, {db}) bar paths for periods {singles:?}, multipliers {mults:?} (side multipliers 1-2 levels shallower), the positive alphabets in a 2^-60 price unit for periods {{1,2,3,5,14}}; MACD triples over {{1,2,3,7}}^3 at depth {} plus (12,26,9),(3,1024,2); default streams of {lens} steps with <=1 deviation for periods up to 1024", d - 2);
+    res.bounds = format!("seq(S_int+{{7.7,1e6}}+reset, {d}) scalar paths and seq(B_grid+reset, {db}) bar paths for periods {singles:?}, multipliers {mults:?} (side multipliers 1-2 levels shallower), the positive alphabets in a 2^-60 price unit for periods {{1,2,3,5,14}}; MACD triples over {{1,2,3,7}}^3 at depth {} plus (12,26,9),(3,1024,2); default streams of {lens} steps with <=1 deviation for periods up to 1024; very long runs (2 x 25k / 2 x 500k steps, all orderings of 2 of 5 regimes, thinned in quick) against an incremental double-double recursion for periods {{1,2,9,14,200}}", d - 2);
     res.assumptions = vec![
         "EMA state space is unbounded: depth-bounded, plus fixed long default streams".into(),
         "bar alphabets contain valid bars only (low<=close<=high): the statement's formulas are the documented ones for real bars".into(),
